@@ -73,7 +73,7 @@ def build(rng, g, tdm=True):
             decls.append(t)
             tags.add("with:scalar")
     for _ in range(rng.choice([0, 0, 1, 2])):
-        t = G.decl_array(name=rng.choice([None, "P0", "pa", "q", "p_1", "pp1", "p0_left", "p1a", "p12x", "p3_", "p", "p0p"]) if rng.random() < 0.5 else None, param_p=0.0)
+        t = G.decl_array(name=rng.choice([None, "P0", "pa", "q", "p_1", "pp1", "p0_left", "p1a", "p12x", "p3_", "p", "p0p", "p1_0", "p10_2", "p0_0", "p1_000", "p1e3", "p0x1", "p00a"]) if rng.random() < 0.5 else None, param_p=0.0)
         if t:
             decls.append(t)
             tags.add("with:ordinary-array")
